@@ -74,7 +74,7 @@ def search_paths(failure):
                 reqs.append({'op': 'import_path', 'from': 'bindings/' + f, 'import': 'bindings/' + i})
         reqs = reqs[:4000]
         # components that differ only in letter case, or where one is a prefix of the other, are different directories
-        near = ['a/f.ts', 'A/f.ts', 'a/F.ts', 'é/f.ts', 'É/f.ts', 'ab/f.ts', 'a/b/f.ts', 'A/b/f.ts', 'a/B/f.ts', 'a /f.ts', 'f.ts', 'F.ts']
+        near = ['a/f.ts', 'A/f.ts', 'a/F.ts', 'é/f.ts', 'É/f.ts', 'ab/f.ts', 'a/b/f.ts', 'A/b/f.ts', 'a/B/f.ts', 'a /f.ts', 'f.ts', 'F.ts', 'api.events', 'api.requests', 'api.ts', 'v1.2', 'x.ats', 'a/x.d.ts']
         reqs += [{'op': 'import_path', 'from': 'bindings/' + f, 'import': 'bindings/' + i} for f in near for i in near]
     ups = ['../' * k + 'x.ts' for k in range(0, 8)]
     reqs += [{'op': 'absolute', 'path': p} for p in ups + list(_rel_paths(3))]
@@ -170,10 +170,27 @@ def _hist_subsearches():
                         'expected_import_lines': {f: lines}, 'agree': False}, 'kind': 'history-imports', 'file': f, 'lines': lines}
     subs.append((('C04', 'C08', 'C13'), import_lines))
 
+    def explicit_dir():
+        # export_all_to writes the root AND everything reachable into the given directory; TS_RS_EXPORT_DIR plays no part
+        base = run_history([['export_all', 'D']])
+        exp = {('out2/' + k[len('bindings/'):] if k.startswith('bindings/') else k): v for k, v in base.get('files', {}).items()}
+        for env in (None, 'elsewhere'):
+            got = run_history([['export_all_to', 'D', 'out2']], env_dir=env)
+            if got.get('files') != exp or any(r != 'ok' for r in got.get('results', [])):
+                return {'request': {'op': 'export_history', 'steps': [['export_all_to', 'D', 'out2']], 'env_dir': env}, 'result': {'files': got.get('files'), 'results': got.get('results'),
+                        'expected_files': exp, 'agree': False, 'note': 'expected_files = what export_all(D) writes under ./bindings, moved to out2/'}, 'kind': 'history'}
+        # and export_all follows TS_RS_EXPORT_DIR
+        exp2 = {('elsewhere/' + k[len('bindings/'):] if k.startswith('bindings/') else k): v for k, v in base.get('files', {}).items()}
+        got = run_history([['export_all', 'D']], env_dir='elsewhere')
+        if got.get('files') != exp2:
+            return {'request': {'op': 'export_history', 'steps': [['export_all', 'D']], 'env_dir': 'elsewhere'}, 'result': {'files': got.get('files'), 'results': got.get('results'),
+                    'expected_files': exp2, 'agree': False}, 'kind': 'history'}
+    subs.append((('C06', 'C11'), explicit_dir))
+
     def reach():
         # every exportable type reachable from the root gets its file, also when it is reachable only through the arguments of a
         # type written without `<..>` (alias) or through a type argument of the root
-        for root, dep in (('AL', 'P1'), ('GR', 'P2'), ('C', 'A'), ('D', 'C')):
+        for root, dep in (('AL', 'P1'), ('GR', 'P2'), ('RS', 'P3'), ('RS', 'P1'), ('C', 'A'), ('D', 'C')):
             a = run_history([['export_all', root]])
             b = run_history([['export_all', root], ['export_all', dep]])
             if a.get('files') != b.get('files') or any(r != 'ok' for r in a.get('results', [])):
@@ -187,7 +204,11 @@ def _hist_subsearches():
         from driver import replay as _rp
         for h, tys in (([['export_all', 'A'], ['export_all', 'M']], ['A', 'M']), ([['export_all', 'A'], ['export_all', 'N']], ['A', 'N']),
                        ([['export_all', 'N'], ['export_all', 'A']], ['A', 'N']), ([['export_all', 'N'], ['export_all', 'B'], ['export_all', 'A']], ['A', 'B', 'N']),
-                       ([['export_all', 'B'], ['export_all', 'A'], ['export_all', 'N']], ['A', 'B', 'N'])):
+                       ([['export_all', 'B'], ['export_all', 'A'], ['export_all', 'N']], ['A', 'B', 'N']),
+                       ([['export_all', 'Q'], ['export_all', 'A']], ['A', 'Q']), ([['export_all', 'A'], ['export_all', 'Q']], ['A', 'Q']),
+                       ([['export_all', 'Z'], ['export_all', 'Q'], ['export_all', 'B']], None)):
+            if tys is None:
+                continue
             got = run_history(h)
             exp = _rp.expected_shared_file(tys)
             act = got.get('files', {}).get('bindings/shared.ts')
@@ -195,6 +216,20 @@ def _hist_subsearches():
                 return {'request': {'op': 'export_history', 'steps': h}, 'result': {'files': got.get('files'), 'results': got.get('results'),
                         'expected_files': {'bindings/shared.ts': exp}, 'agree': False, 'note': 'expected: notice, then each type\'s own chunk once, in name order'}, 'kind': 'history'}
     subs.append((('C04', 'C05', 'C13', 'C15'), docs))
+
+    def generic_siblings():
+        # a generic declaration `Pair<T>` next to `Pair2`, `Pair3`: every export order gives the same bytes
+        import itertools as _it
+        ref = None
+        for perm in _it.permutations(['Pair', 'Pair2', 'Pair3']):
+            got = run_history([['export_all', t] for t in perm])
+            f = got.get('files', {}).get('bindings/pairs.ts')
+            if ref is None:
+                ref = (perm, f)
+            elif f != ref[1] or f is None:
+                return {'request': {'op': 'export_history', 'steps': [['export_all', t] for t in perm]}, 'result': {'files': got.get('files'), 'results': got.get('results'),
+                        'expected_files': {'bindings/pairs.ts': ref[1]}, 'agree': False, 'note': f'expected_files = the same types exported in the order {list(ref[0])}'}, 'kind': 'history'}
+    subs.append((('C05', 'C13'), generic_siblings))
 
     def faults():
         # a failed export must not be recorded as done (C17): obstacle before one step, removed before the retry of that step
@@ -234,7 +269,7 @@ def search_export_history(failure):
 
 def search_lexical(failure):
     ob = failure['obligation']
-    names = ['', 'a', '1a', 'a b', 'a"b', 'a\\b', 'a\nb', '"', '\\', 'é', '_', '$x', 'a-b'] + [s for s in strings(['a', '"', '\\', '1', ' '], 3)]
+    names = ['', 'a', '1a', 'a b', 'a"b', 'a\\b', 'a\nb', '"', '\\', 'é', '_', '$x', 'a-b', '٣rd', '٣', 'a٣', '²x', 'x²', 'Ⅷa', 'aⅧ'] + [s for s in strings(['a', '"', '\\', '1', ' '], 3)]
     docs = [[' a'], ['/ x'], [' a */ b'], [' **/*.rs'], [' x *'], ['*', '/'], [' a\n b */ c\n'], [' a\n*/'], ['/\n'], [' a *', '/ b'], []]
     docs += [[''.join(t)] for t in itertools.product(['*', '/', ' ', 'a', '\n'], repeat=3)]
     docs += [[a, b] for a in (' a', ' a\n b', '', ' a\n') for b in (' c', ' c\n d', '')] + [[' a\n b', ' c', ' d']]
@@ -252,6 +287,13 @@ def search_lexical(failure):
     for rq, o in zip(reqs, outs):
         if not o.get('agree', True):
             return {'request': rq, 'result': o}
+    if any(r['op'] == 'parse_docs' for r in reqs):
+        # the comment block also has to survive in a file shared with other types (really derived, documented types)
+        for props, thunk in _hist_subsearches():
+            if thunk.__name__ == 'docs':
+                w = thunk()
+                if w:
+                    return w
     return None
 
 
@@ -275,7 +317,7 @@ def search_attrs(failure):
     return None
 
 
-SEARCHERS = {'inflection': search_inflection, 'paths': search_paths, 'paths_esm': search_paths, 'export_chain': search_export_history, 'registry': search_export_history, 'lexical': search_lexical, 'recursion': search_export_history, 'merge': search_export_history, 'merge_imports': search_export_history, 'deps': search_export_history, 'gen_imports': search_export_history, 'attrs': search_attrs, 'parsers': search_attrs}
+SEARCHERS = {'inflection': search_inflection, 'paths': search_paths, 'paths_esm': search_paths, 'export_chain': search_export_history, 'registry': search_export_history, 'lexical': search_lexical, 'recursion': search_export_history, 'merge': search_export_history, 'merge_imports': search_export_history, 'deps': search_export_history, 'gen_imports': search_export_history, 'containers': search_export_history, 'attrs': search_attrs, 'parsers': search_attrs}
 
 
 def search(pid, unit, failure, seed):
